@@ -339,7 +339,10 @@ define(
     'C05', 'exploration',
     [('tbrmmdiagnostics', [DIAG + 'estimate_required_impact',
                            DIAG + 'required_impact', DIAG + 'tbrfit',
-                           DIAG + 'pretestfit'], True)],
+                           DIAG + 'pretestfit'], True),
+     # the post-analysis the impact is calibrated to: its summary algebra and
+     # the date order of the aggregated series
+     ('tbr', None, False)],
     ENGINE_TRUST[:3] + [
         'NumPy/SciPy ledger: t and F quantiles, std, var, sqrt are '
         'uninterpreted; sqrt strictly increasing and non-negative (lemma '
@@ -417,7 +420,9 @@ FRAME_TRUST = [
 
 define(
     'C07', 'exploration',
-    [('tbr_iroas', None, False)],
+    [('tbr_iroas', None, False),
+     # the fixed-cost report is TBR.summary of the response rescaled by 1/cost
+     ('tbr', None, False)],
     ENGINE_TRUST[:3] + FRAME_TRUST + [
         'utils.float_order is an uninterpreted function of its argument'],
     ['precondition of the proved core: the control group has rows in the '
@@ -438,18 +443,24 @@ define(
     ENGINE_TRUST[:3] + FRAME_TRUST + [
         'ASSUMED contracts (bodies not verified, read off the code): '
         '_detect_noisy_geos, _detect_outliers, _correlation_test write no '
-        'field and return a list / None / bool; _create_analysis_data writes '
-        'only _analysis_data := ANA(screened rows, target, names) and raises '
-        'ValueError iff a group has no row; utils.kwarg_subdict is pure'],
-    ['what the pivot ANA computes (per-date group totals) and the caller\'s '
-     'frame staying unmodified are checked by the bounded monitor only'],
+        'field and return a list / None / bool; utils.kwarg_subdict is pure',
+        'pandas ledger for _create_analysis_data: unique(), map(dict), column '
+        'assignment, drop_duplicates, pivot_table(sum) and reset_index as '
+        'stated in engine/frame_ledger.py'],
+    ['what pandas\' pivot_table computes from the rows it is given (per-date '
+     'group totals) and the caller\'s frame staying unmodified are checked by '
+     'the bounded monitor only'],
     'Proved for TBRDiagnostics.fit over the row algebra: the screened data '
     'hold exactly the input rows minus every row of the reported noisy geos '
     'and of the reported outlier dates; the analysis data are recomputed '
     'from the final screened data; the target defaults to the response '
     'column; only ValueError escapes.  Against plain recomputation from the '
     'raw frame (totals, row order independence, caller\'s frame): bounded '
-    'run-time contract.',
+    'run-time contract.  Also proved (body verified, no longer assumed): '
+    '_create_analysis_data raises ValueError exactly when a group id has no '
+    'row, otherwise stores the sum-pivot (date x period index, one column '
+    'per group label) of ALL current screened rows with control -> x, '
+    'treatment -> y, period moved out of the index, and writes nothing else.',
     'DESIGN.md section 7, C19',
     'Level is the weaker (bounded) one.')
 
